@@ -29,6 +29,18 @@ def specific(module, r):
                     view["data"][0]["v"] = dict(view["data"][0]["v"], n=view["data"][0]["v"]["n"] + 1000)     # the mapping view no longer agrees with getattr
                     return True
         return False
+    if module == "Trace_LoopSteps" and r.get("steps"):
+        r["steps"][-1]["errs"] = r["steps"][-1]["errs"] + ["parse"]
+        return True
+    if module == "Trace_WrapSteps" and r.get("steps"):
+        r["steps"][-1]["keys"] = r["steps"][-1]["keys"] + ["zz"]
+        return True
+    if module == "Trace_OptionsFlow" and r.get("obs"):
+        r["obs"][0] = ["ne"] if r["obs"][0] != ["ne"] else []
+        return True
+    if module == "Trace_SchemaGenM":
+        r["props"] = r["props"] + ["zz"]
+        return True
     if module == "Trace_Registry":
         for st in r.get("steps", []):
             if st.get("op") == "res":
